@@ -41,7 +41,7 @@ fn wlen(ws: &[Word]) -> usize {
 }
 
 /// canonical-form check of a UBig through the hook; returns None if fine
-fn canon_u(x: &UBig) -> Option<String> {
+pub fn canon_u(x: &UBig) -> Option<String> {
     let (cap, len) = ubig_repr_info(x);
     let ws = x.as_words();
     if cap <= 0 {
@@ -65,7 +65,7 @@ fn canon_u(x: &UBig) -> Option<String> {
     None
 }
 
-fn canon_i(x: &IBig) -> Option<String> {
+pub fn canon_i(x: &IBig) -> Option<String> {
     let (cap, len) = ibig_repr_info(x);
     let (sign, ws) = x.as_sign_words();
     if cap == 0 {
